@@ -552,9 +552,19 @@ func ClassifyClient(tr *CTrace) []Issue {
 		add("C08/published-non-established", "Client.Establish returned nil but the published channel is in state %s (Established()=%v)", tr.State, tr.Established)
 	}
 	// (e) closes its connection when the server answers finished or failed
+	estSent := false
 	for i, e := range tr.Events {
+		if e.T == "s-send" && e.Env != nil && e.Env["state"] == "established" {
+			estSent = true
+		}
 		if e.T == "s-send" && e.Env != nil && (e.Env["state"] == "finished" || e.Env["state"] == "failed") {
-			// only meaningful if the client actually consumed it: it was waiting when it was sent (always true here)
+			// only meaningful if the client consumed it as an answer: it was waiting in its handshake when it was sent.
+			// The scripted server stops once the client's call has returned, but it may notice the return one symbol
+			// late: a terminal session after the established one that the call returned is not part of the handshake
+			// (ending an established session is C13's subject).
+			if estSent && returnedClaim {
+				break
+			}
 			if !tr.ClientClosed {
 				add("C08/not-closed-after-terminal", "the server answered %v (event %d) but the client did not close its connection (script %v)", e.Env["state"], i, tr.Script)
 			}
